@@ -220,5 +220,5 @@ def run(ctx):
             if g == cand or g == pulled(cand):
                 return {"rule": "time-only-candidate-day-is-utc-date"}
         return None
-    res = decide(ctx, cases, model_share=0.5 if tier == "quick" else 0.1, known_key=known_key)
+    res = decide(ctx, cases, model_share=0.5 if tier == "quick" else 1.0, known_key=known_key)
     return res
